@@ -7,7 +7,7 @@ from __future__ import annotations
 
 import ast
 
-from sa.consteval import ConstEval, NotConstant, Opaque
+from sa.consteval import ConstEval, NotConstant, Opaque, _Return
 
 
 class Ctx(dict):
@@ -77,11 +77,18 @@ class LamEval(ConstEval):
         return super().eval(e, env, mod)
 
     def call_lambda(self, lam_node, args, mod, extra=None):
+        """apply a lambda, or a named module-level function used in its place, to the given values"""
         params = [a.arg for a in lam_node.args.args]
         env = dict(extra or {})
         env.update(zip(params, args))
         if args and isinstance(args[-1], Ctx):
             env["__ctx__"] = args[-1]
+        if isinstance(lam_node, ast.FunctionDef):
+            try:
+                self.exec_block(lam_node.body, env, mod)
+            except _Return as r:
+                return r.v
+            return None
         return self.eval(lam_node.body, env, mod)
 
     def eval_this(self, node, ctx, mod):
